@@ -14,23 +14,23 @@ processes to exercise exactly that.
 namespace GoPlugin.Props.C03
 open GoPlugin Crash
 
-def pGood : Params := ⟨true, true, true, true, true⟩
+def pGood : Params := ⟨true, true, true, true, true, true⟩
 
 theorem good_eq (P : Params) (hP : P.Good) : P = pGood := by
-  obtain ⟨a, b, c, d, e⟩ := P
-  obtain ⟨h1, h2, h3, h4, h5⟩ := hP
-  simp only at h1 h2 h3 h4 h5
-  subst h1 h2 h3 h4 h5; rfl
+  obtain ⟨a, b, c, d, e, f⟩ := P
+  obtain ⟨h1, h2, h3, h4, h5, h6⟩ := hP
+  simp only at h1 h2 h3 h4 h5 h6
+  subst h1 h2 h3 h4 h5 h6; rfl
 
 /-- the state space is finite: every state, enumerated -/
 def allStates : List State :=
   [false, true].flatMap fun pa => [false, true].flatMap fun so =>
-  [OutPc.scanning, .draining, .stuck, .done].flatMap fun out =>
+  [OutPc.scanning, .draining, .stuck, .blocked, .done].flatMap fun out =>
   [WaitPc.waitPipes, .waitProc, .marking, .cancelling, .done].flatMap fun w =>
   [false, true].flatMap fun ex => [false, true].map fun cc => ⟨pa, so, out, w, ex, cc⟩
 
 def allEvents : List Event :=
-  [.procDies, .scannerError, .stderrEOF, .stdoutEOF, .pipesDone, .waitReturns, .markExited, .cancel]
+  [.procDies, .scannerError, .extraLine, .stderrEOF, .stdoutEOF, .pipesDone, .waitReturns, .markExited, .cancel]
 
 theorem allStates_complete (s : State) : s ∈ allStates := by
   obtain ⟨pa, so, out, w, ex, cc⟩ := s
@@ -41,7 +41,7 @@ theorem allEvents_complete (e : Event) : e ∈ allEvents := by cases e <;> decid
 /-- bookkeeping invariant of the goroutines (as a Boolean function, so that the finite checks run in the kernel) -/
 def invB (s : State) : Bool :=
   (s.wait == .waitPipes || (!s.stderrOpen && (s.stdout == .done || s.stdout == .stuck))) &&
-  (s.stdout != .stuck) &&
+  (s.stdout != .stuck) && (s.stdout != .blocked) &&
   (!(s.wait == .marking || s.wait == .cancelling || s.wait == .done) || !s.procAlive) &&
   (!(s.wait == .cancelling || s.wait == .done) || s.exited) &&
   (!(s.wait == .done) || s.ctxCancelled) &&
@@ -87,11 +87,21 @@ theorem stdout_never_stuck (P : Params) (hP : P.Good) (s : State) (h : Reachable
   simp only at hst; subst hst
   cases pa <;> cases so <;> cases w <;> cases ex <;> cases cc <;> simp [invB] at hi
 
+/-- no reachable state has the stdout scanner blocked on handing over a line: whatever the plugin prints on its
+real stdout after the handshake line — and however `Start` returned — is received by somebody -/
+theorem stdout_never_blocked (P : Params) (hP : P.Good) (s : State) (h : Reachable P s) : s.stdout ≠ .blocked := by
+  have := good_eq P hP; subst this
+  have hi := inv_of_reachable s h
+  intro hst
+  obtain ⟨pa, so, out, w, ex, cc⟩ := s
+  simp only at hst; subst hst
+  cases pa <;> cases so <;> cases w <;> cases ex <;> cases cc <;> simp [invB] at hi
+
 /-- **`Start` cannot wait longer than its timeout and notices an early exit**: with the timer arm and the
 `doneCtx` arm present, silence and early exit are both errors (this is the select of C01's model; restated
 as facts because here they are what bounds `Start` when the plugin dies before or during the handshake). -/
 theorem start_bounded (P : Params) (hP : P.Good) : P.startHasTimeout = true ∧ P.startWatchesExit = true :=
-  ⟨hP.2.2.2.2, hP.2.2.2.1⟩
+  ⟨hP.2.2.2.2.1, hP.2.2.2.1⟩
 
 /-- **Every operation that needs the plugin errs once it is dead; Kill and Exited() still succeed** (under `DeadPeerFails`). -/
 theorem needs_plugin_errs (op : Op) : afterCrash op = (if op = .kill ∨ op = .exitedQuery then Res.ok else Res.err) := by
@@ -101,12 +111,25 @@ theorem needs_plugin_errs (op : Op) : afterCrash op = (if op = .kill ∨ op = .e
 
 /-- without `defer c.ctxCancel()` the context handed to gRPC plugin clients is never cancelled -/
 theorem no_cancel_witness :
-    (settle ⟨false, true, true, true, true⟩ ⟨false, true, .scanning, .waitPipes, false, false⟩).ctxCancelled = false := by decide
+    (settle ⟨false, true, true, true, true, true⟩ ⟨false, true, .scanning, .waitPipes, false, false⟩).ctxCancelled = false := by decide
 
 /-- without the drain, a scanner that stopped on a long line leaves stdout unread (C10's defect D7 seen from here) -/
 theorem no_drain_witness :
-    ∃ s, runFrom ⟨true, true, false, true, true⟩ init [.scannerError] = some s ∧ s.stdout = .stuck := by
-  refine ⟨(runFrom ⟨true, true, false, true, true⟩ init [.scannerError]).get (by decide), by simp, by decide⟩
+    ∃ s, runFrom ⟨true, true, false, true, true, true⟩ init [.scannerError] = some s ∧ s.stdout = .stuck := by
+  refine ⟨(runFrom ⟨true, true, false, true, true, true⟩ init [.scannerError]).get (by decide), by simp, by decide⟩
+
+/-- when nobody receives from `linesCh` after `Start` returned, one further stdout line wedges the scanner: after the
+process dies the client never reports it as exited and the context is never cancelled -/
+theorem no_lines_drain_witness :
+    ∃ s, runFrom ⟨true, true, true, true, true, false⟩ init [.extraLine, .procDies] = some s ∧ s.procAlive = false ∧
+      (settle ⟨true, true, true, true, true, false⟩ s).exited = false ∧
+      (settle ⟨true, true, true, true, true, false⟩ s).ctxCancelled = false := by
+  refine ⟨(runFrom ⟨true, true, true, true, true, false⟩ init [.extraLine, .procDies]).get (by decide), by simp, by decide, by decide, by decide⟩
+
+/-- non-vacuity: further stdout lines, then death -/
+example : ∃ s, runFrom pGood init [.extraLine, .extraLine, .procDies] = some s ∧ s.procAlive = false ∧
+    (settle pGood s).exited = true ∧ (settle pGood s).ctxCancelled = true := by
+  refine ⟨(runFrom pGood init [.extraLine, .extraLine, .procDies]).get (by decide), by simp, by decide, by decide, by decide⟩
 
 /-- non-vacuity: death in the middle of scanning, with a scanner error before -/
 example : ∃ s, runFrom pGood init [.scannerError, .procDies] = some s ∧ s.procAlive = false ∧
